@@ -1,0 +1,51 @@
+//! Verification hook, compiled only with the `fc-verif` feature (off by default; adds nothing
+//! to normal builds): every readiness set shared by a group of sub-wakers (`ReadinessArray` /
+//! `ReadinessVec`) is registered whenever its owner accesses it, so that an external harness can read
+//! the internal state of the most recently used one — readiness bits, cached ready count, whether a
+//! parent waker is set — and compare it with a model after every operation.
+
+use std::boxed::Box;
+use std::cell::RefCell;
+use std::string::{String, ToString};
+use std::sync::{Arc, Mutex, Weak};
+use std::vec::Vec;
+
+/// What a readiness set reports about itself: its bits, its cached count of set bits, and
+/// whether a parent waker has been stored.
+pub(crate) trait Snapshot {
+    fn snapshot(&self) -> (Vec<bool>, usize, bool);
+}
+
+type Reader = Box<dyn Fn() -> Option<String>>;
+
+std::thread_local! {
+    static LAST: RefCell<Option<Reader>> = const { RefCell::new(None) };
+}
+
+/// Remember the readiness set that is being accessed (on this thread).
+pub(crate) fn register<R: Snapshot + 'static>(readiness: &Arc<Mutex<R>>) {
+    let weak: Weak<Mutex<R>> = Arc::downgrade(readiness);
+    let reader: Reader = Box::new(move || {
+        let strong = weak.upgrade()?;
+        let guard = strong.lock().ok()?;
+        let (bits, count, has_parent) = guard.snapshot();
+        let mut s: String = bits.iter().map(|b| if *b { '1' } else { '0' }).collect();
+        s.push('/');
+        s.push_str(&count.to_string());
+        s.push('/');
+        s.push(if has_parent { 'p' } else { '-' });
+        Some(s)
+    });
+    LAST.with(|l| *l.borrow_mut() = Some(reader));
+}
+
+/// `<bits>/<ready count>/<p|->` of the readiness set most recently accessed by its owner on this thread;
+/// `None` if there is none, it is gone, or its lock is poisoned.
+pub fn kernel_snapshot() -> Option<String> {
+    LAST.with(|l| l.borrow().as_ref().and_then(|read| read()))
+}
+
+/// Forget the registered readiness set (between independent cases).
+pub fn reset() {
+    LAST.with(|l| *l.borrow_mut() = None);
+}
